@@ -361,6 +361,76 @@ def _comment_invariance(t):
                 cfg=cfggen.text(a), nontrivial=f0.out != base, lang=lang)
 
 
+PP_OPEN = [['if (a > 0)', '{'], ['if (b > 0) {'], ['while (c > 0)', '{'], ['for (;;) {']]
+PP_BAL = [['r = a;'], ['r = b;'], ['if (c)', '   r = c;'], ['r = d;', 'r++;']]
+
+
+def pp_alt_host(nalt, kind, deep, style):
+    """-> [(tag, line)]: a function whose body holds one '#if' group with nalt alternatives; tag is 'c' (common), 'd' (directive) or the
+    index of the alternative the line belongs to.  kind 'open': every alternative opens a block that is closed after '#endif'."""
+    L = [('c', 'int f(int a, int b, int c, int d)'), ('c', '{'), ('c', 'int r = 0;')]
+    if deep:
+        L += [('c', 'if (d > 1)'), ('c', '{')]
+    alts = (PP_OPEN if kind == 'open' else PP_BAL)[:nalt]
+    for k, alt in enumerate(alts):
+        if k == 0:
+            L.append(('d', '#ifdef A' if style == 'ifdef' else '#if defined(A)'))
+        elif k == nalt - 1:
+            L.append(('d', '#else'))
+        else:
+            L.append(('d', '#elif defined(B%d)' % k))
+        L += [(k, l) for l in alt]
+    L.append(('d', '#endif'))
+    if kind == 'open':
+        L += [('c', 'r = 1;'), ('c', 'if (r)'), ('c', '{'), ('c', 'r--;'), ('c', '}'), ('c', '}')]
+    L += [('c', 'r += 2;')]
+    if deep:
+        L += [('c', '}')]
+    L += [('c', 'return r;'), ('c', '}'), ('c', '')]
+    return L
+
+
+def _pp_alternatives(t):
+    """Each alternative of a preprocessor conditional is laid out as if it were the only one: the lines of alternative k and the common lines
+    get the leading whitespace they get in the program that holds alternative k alone."""
+    cid, nalt, kind, deep, style, a = t
+    L = pp_alt_host(nalt, kind, deep, style)
+    fr = fixed_rng(PROP, 'ppalt:' + cid)
+    ind = lambda: b' ' * fr.randint(0, 12)
+    full = b'\n'.join((b'' if tag == 'd' else ind()) + l.encode() for tag, l in L)
+    f = fmt.fmt(full, 'C', cfggen.text(a))
+    if f.out is None:
+        return dict(cid=cid, status='rejected', viols=[])
+    ol = f.out.split(b'\n')
+    if len(ol) != len(L) or any(squeeze(o) != squeeze(l.encode()) for o, (_, l) in zip(ol, L)):
+        return dict(cid=cid, status='unmapped', viols=[])
+    viols = []
+    judged = 0
+    for k in range(nalt):
+        keep = [i for i, (tag, _) in enumerate(L) if tag == 'c' or tag == k]
+        single = b'\n'.join(ind() + L[i][1].encode() for i in keep)
+        g = fmt.fmt(single, 'C', cfggen.text(a))
+        if g.out is None:
+            continue
+        gl = g.out.split(b'\n')
+        if len(gl) != len(keep):
+            continue
+        for i, q in zip(keep, gl):
+            if not q.strip():
+                continue
+            judged += 1
+            if lead_of(ol[i]) != lead_of(q):
+                where = 'alternative' if L[i][0] == k else ('after-endif' if i > max(j for j, (tg, _) in enumerate(L) if tg == 'd') else 'before-if')
+                viols.append(('pp-alternative|%s|alt%d-of-%d|%s' % (kind, k + 1, nalt, where),
+                              'line %d %r: leading whitespace %r in the program with the conditional, %r in the program that holds alternative %d alone' % (
+                                  i + 1, ol[i].strip()[:40], lead_of(ol[i]), lead_of(q), k + 1)))
+                break
+        if viols:
+            break
+    return dict(cid=cid, status='ok', viols=[(k_, d, a) for k_, d in viols], judged=judged, input=full if viols else None, cfg=cfggen.text(a),
+                nontrivial=f.out != full, lang='C')
+
+
 def reindent_all(data, r):
     out = []
     for line in data.split(b'\n'):
@@ -520,6 +590,33 @@ def check(ctx):
             ctx.violation(key, '%s (case %s, %s): %s\n  options: %s' % (kind, r['cid'], r['lang'], detail, a),
                           files={'input': r['input'], 'input-with-comments': r['variant'], 'config.cfg': r['cfg']})
     ctx.count('comment_invariance_lines_judged', tot_m)
+    # preprocessor conditionals with 2..4 alternatives, each opening a block (closed after #endif) or balanced
+    pa = []
+    for nalt in (2, 3, 4):
+        for kind in ('open', 'bal'):
+            for deep in (0, 1):
+                for style in ('if', 'ifdef'):
+                    for j in range(6 if quick else 40):
+                        fr = fixed_rng(PROP, 'ppa:%d:%s:%d:%s:%d' % (nalt, kind, deep, style, j))
+                        a = cfg_assign(model_config(fr, 'C')) if j else {}
+                        for name, vals in fr.sample(STYLE_OPTS, fr.choice([0, 1, 2, 4]) if j else 0):
+                            a[name] = fr.choice(vals)
+                        pa.append(('%d:%s:%d:%s:%d' % (nalt, kind, deep, style, j), nalt, kind, deep, style, a))
+    tot_p = 0
+    for r in pmap(_pp_alternatives, pa):
+        ctx.evaluations += 1
+        ctx.count('pp_alternatives_' + r['status'])
+        if r['status'] != 'ok':
+            continue
+        tot_p += r['judged']
+        if r['nontrivial']:
+            ctx.nt('ppalt', r['cid'])
+        for kind, detail, a in r['viols']:
+            if kind in seen:
+                continue
+            seen.add(kind)
+            ctx.violation(kind, '%s (case %s): %s\n  options: %s' % (kind, r['cid'], detail, a), files={'input': r['input'], 'config.cfg': r['cfg']})
+    ctx.count('pp_alternative_lines_judged', tot_p)
     for r in okc[:3]:
         ctx.sample(dict(case=r['cid'], lang=r['lang'], lines_judged=r['judged'], max_level=r['maxdepth']))
     ctx.assumptions += ['the closed form covers indent_columns, indent_with_tabs, output_tab_size, indent_switch_case and indent_namespace; other '
@@ -532,3 +629,4 @@ def check(ctx):
     ctx.require('invariance_lines_judged', 40000)
     ctx.require('consistency_lines_judged', 40000)
     ctx.require('comment_invariance_lines_judged', 20000)
+    ctx.require('pp_alternative_lines_judged', 2000)
